@@ -4,10 +4,12 @@
 Require Extraction.
 Require Import ExtrOcamlBasic.
 From Redo Require Import Base.Bytes Paths.Norm Paths.Rel DoFiles.Candidates LogRec.Meta Build.Model.
+From Redo Require Tokens.Model.
 
 Extraction Language OCaml.
 Extraction "model.ml"
   normpath abs_path realdirpath relpath db_key
   possible_do_files arg1 arg2 arg3
   format parse parse_done_text done_text
-  init_world run_history read_stamp first_runid stamp_eqb.
+  init_world run_history read_stamp first_runid stamp_eqb
+  Tokens.Model.apply Tokens.Model.init Tokens.Model.Q Tokens.Model.find.
